@@ -72,7 +72,15 @@ func (p *Peers) Collect() (*WebRTCPeer, error) {
 	}
 	// Track new valid Snowflake in internal collection and pass along.
 	p.activePeers.PushBack(connection)
-	p.snowflakeChan <- connection
+	select {
+	case p.snowflakeChan <- connection:
+	case <-p.melt:
+		// End was called while we were waiting for room in the channel
+		// (it can be full of peers that have closed on their own). Do not
+		// keep holding collectLock, or End would never return.
+		connection.Close()
+		return nil, fmt.Errorf("Snowflakes have melted")
+	}
 	return connection, nil
 }
 
